@@ -4,6 +4,15 @@ Families A-G of DESIGN.md section 5/C08 over the fragment alphabets of
 mc/domains/fragments.py, against molecule sets built from M(n) C/O/N with
 radicals + charged species + curated rings/aromatics/metals.  Oracle:
 models/ringref.py (own reader, own injective backtracking matcher).
+
+Family R (third wave, mc/domains/w3_c08.py): the ring vocabulary of the
+language (every ring-size / ring-count constraint with digits 0..6, ring
+prefixes, ring/nonring bonds, cyclic/linear, combined on one and on two atoms)
+against EVERY saturated carbon skeleton up to 6 (thorough: 7) atoms - which
+includes all small cages and bridged systems, whose smallest ring set is not
+unique - plus ten named cages above that bound.  The ring set that counts is
+the one carried by the molecule object the caller passes (the reference reads
+that object); a matcher that re-perceives rings differently is seen there.
 """
 import os
 
@@ -12,6 +21,7 @@ from ..models import ringref
 from ..domains import fragments as F
 from ..domains import molecules as MD
 from ..domains import libs
+from ..domains import w3_c08 as W3
 
 LEVEL = 'exploration'
 CORE = ['C', 'CC', 'C=C', 'C#C', 'CO', 'C=O', 'CCO', 'CC=O', 'C1CC1', 'C1CO1',
@@ -33,10 +43,18 @@ BOUND = {
              'every shipped scheme; G: 5 layouts x 5 labelings of a 300-fragment '
              'slice; molecules: M(2) C/O/N with radicals + charged + curated '
              '(full set for A, B, E, F; 45-molecule core for the rest), each set '
-             'followed by atom-reversed copies and 7 partly hydrogen-explicit objects',
+             'followed by atom-reversed copies and 7 partly hydrogen-explicit objects; '
+             'R: 1126 ring-vocabulary fragments (2 atoms x 168 ring constraints with '
+             'digits 0..6; ring prefixes x 4 symbols; cyclic/linear x 2 bodies; C-C over '
+             '{ring, nonring, single, any} x (none | 8 ring constraints)^2; 16^2 ordered '
+             'constraint pairs on one atom; 3-atom chains/triangles over {ring, any} x 16 '
+             'constraints) x all 109 saturated carbon skeletons (connected graphs, degree '
+             '<= 4) with 1..6 atoms + 10 named cages (118 distinct molecules)',
     'thorough': 'as quick with C x 40 constraints, D + 4-atom chains/stars/'
                 'squares, G on a 4000-fragment slice, molecules M(3) C/O/N with '
-                'radicals (full set) and a 150-molecule core'}
+                'radicals (full set) and a 150-molecule core; R: the same 1126 '
+                'fragments x all 462 saturated carbon skeletons with 1..7 atoms + '
+                'the named cages'}
 RULE = ('every fragment of the families x every molecule of the set is read '
         'and matched by the implementation and by the reference; compared is '
         'the sorted list of match tuples (duplicates significant).  An '
@@ -46,6 +64,10 @@ RULE = ('every fragment of the families x every molecule of the set is read '
         'decides the outcome)')
 ASSUMPTIONS = ['RDKit ring perception (SSSR) defines "ring of size n" and "in n '
                'rings" for implementation and reference alike',
+               'where the smallest ring set is not unique (cages, bridged systems) '
+               'the ring set meant is the one the molecule object carries when it '
+               'is handed to the matcher (RDKit\'s symmetrised set from SMILES '
+               'parsing); the reference reads it from that object',
                '`*` suffix, `group` targets, boolean operators other than `!` '
                'and duplicate labels are outside the alphabet',
                '`M` only meets molecules whose atoms are H/C/N/O/Pt/Ru',
@@ -60,7 +82,11 @@ MANIFEST = dict(
          'scheme fragment, and layout/label variants are matched against every '
          'molecule of an exhaustively enumerated small-molecule set by the '
          'implementation and by an independent reader+matcher; the sorted '
-         'match lists must be identical.',
+         'match lists must be identical.  The ring vocabulary (every ring-size '
+         'and ring-count constraint, ring prefixes and bonds, alone and '
+         'combined) is additionally matched against every saturated carbon '
+         'skeleton up to 6 (thorough 7) atoms, cages with a non-unique '
+         'smallest ring set included.',
     note='Fragments above 3-4 atoms and molecules above the enumeration bound '
          'only occur through the curated list and the shipped schemes.',
     ref='5/C08')
@@ -73,7 +99,10 @@ def molset(which, tier):
     if key in _MOLS:
         return _MOLS[key]
     from rdkit import Chem
-    if which == 'core':
+    if which == 'cage':
+        # every saturated carbon skeleton up to 6 (T: 7) atoms + named cages
+        smis = W3.skeletons(6 if tier == 'quick' else 7) + W3.CAGES
+    elif which == 'core':
         smis = list(CORE)
         if tier == 'thorough':
             smis += EXTRA + [s for s in MD.M(3, ('C', 'O', 'N'), 2)][::4]
@@ -92,7 +121,7 @@ def molset(which, tier):
     # different indices), right after the set: anything remembered per
     # compound instead of per molecule object shows up
     extra = []
-    for s, m, g in out[:60]:
+    for s, m, g in (out[:60] if which != 'cage' else []):
         n = m.GetNumAtoms()
         if n >= 2 and n <= 8:
             m2 = Chem.RenumberAtoms(m, list(reversed(range(n))))
@@ -100,8 +129,8 @@ def molset(which, tier):
     # molecule objects that already contain SOME of their hydrogens as atoms
     ps = Chem.SmilesParserParams()
     ps.removeHs = False
-    for s in ['[2H]CC', '[H]C([H])C', '[H]OC', 'C([H])=C', '[H]C1CC1', '[2H]O',
-              '[H][C]([H])C']:
+    for s in (['[2H]CC', '[H]C([H])C', '[H]OC', 'C([H])=C', '[H]C1CC1', '[2H]O',
+               '[H][C]([H])C'] if which != 'cage' else []):
         m = Chem.MolFromSmiles(s, ps)
         if m is not None:
             extra.append((s + ' (partly explicit H)', m, ringref.G(Chem.AddHs(m))))
@@ -227,6 +256,8 @@ def shards(tier, seed):
         out.append(('F', i, 8))
     for i in range(8 if tier == 'quick' else 32):
         out.append(('G', i, 8 if tier == 'quick' else 32))
+    for i in range(16 if tier == 'quick' else 64):
+        out.append(('R', i, 16 if tier == 'quick' else 64))
     return out
 
 
@@ -282,6 +313,9 @@ def run_shard(shard, tier):
                     run_text(R, 'G', F.render(f, lay, lab, name='Q_%s' % lab[:1]),
                              molset('core', 'quick'), base=base,
                              base_text=F.render(f))
+    elif fam == 'R':
+        for f in chunks(W3.ring_fragments(), i, n):
+            run_text(R, 'R', F.render(f), molset('cage', tier))
     if R.evals and not R.samples:
         R.sample(dict(family=fam, shard=i))
     return R
